@@ -44,6 +44,14 @@ def nonce_monitor(case, log, ctx, seen=None):
     seen = {} if seen is None else seen
     builds = [i for i, l in enumerate(case) if l.startswith("build ")]
     b = -1
+    si = {}
+    for l in case:
+        w = l.split()
+        if w[0] == "set":
+            for x in w[2:]:
+                if x.startswith("si="):
+                    si[w[1]] = int(x[3:])
+    last_emit = {}
     for rec in log:
         if rec["op"] != "build":
             continue
@@ -61,6 +69,14 @@ def nonce_monitor(case, log, ctx, seen=None):
         if not p["sealed"] and any(t in (6, 7) for (_s, t, _d) in p["msgs"]):
             ctx.failure("application-bytes-in-clear", "application message emitted in an unsealed datagram", {"case": case, "at": at})
             return seen
+        # the protocol's send-rate cap (the lemma the nonce argument rests on): emissions of one endpoint are at
+        # least send_interval apart
+        e = rec["e"]
+        if e in last_emit and e in si and rec["t"] - last_emit[e] < si[e]:
+            ctx.failure("send-rate-cap-broken", "%s emitted two datagrams %d ticks apart (send interval %d): a sequence wrap can then fit into "
+                        "one clock second and repeat a nonce" % (e, rec["t"] - last_emit[e], si[e]), {"case": case, "at": at})
+            return seen
+        last_emit[e] = rec["t"]
         if p["sealed"]:
             k = (p["key"], p["nonce"])
             if k in seen:
